@@ -137,6 +137,11 @@ class Curve:
         F = self.F
         if p is None:
             if zmode == "canon": return F.hex(F.zero) + " " + F.hex(F.one) + " " + F.hex(F.zero)
+            # identity representatives: z = 0 with arbitrary x, y — including the all-zero object (memset) and x = 0 or y = 0
+            r = rng.random()
+            if r < 0.2: return F.hex(F.zero) + " " + F.hex(F.zero) + " " + F.hex(F.zero)
+            if r < 0.3: return F.hex(F.rand(rng)) + " " + F.hex(F.zero) + " " + F.hex(F.zero)
+            if r < 0.4: return F.hex(F.zero) + " " + F.hex(F.rand(rng)) + " " + F.hex(F.zero)
             return F.hex(F.rand(rng)) + " " + F.hex(F.rand(rng)) + " " + F.hex(F.zero)
         if zmode in ("one", "canon"):
             z = F.one
